@@ -4,13 +4,13 @@ import NixModel.Lemmas.C18Clean
 namespace Nix.Upgrade.Lemmas
 open Nix.Upgrade
 
-def usOf (o : OldProp) : List Rat := o.rows.map (·.uncertainty)
-def manyOf (o : OldProp) : Bool := decide ((usOf o).eraseDups.length > 1)
+def usOf (o : OldProp) : List Flt := o.rows.map (·.uncertainty)
+def manyOf (o : OldProp) : Bool := decide (distinctCount (usOf o) > 1)
 
 def mainOf (r : Nat) (o : OldProp) : NewProp :=
   { freshProp r o.dtype (o.rows.map (·.value)) with
     definition := nonEmpty o.definition, unit := nonEmpty o.unit,
-    uncertainty := if manyOf o then none else if (usOf o).any (· != 0) then (usOf o).head? else none }
+    uncertainty := if manyOf o then none else if (usOf o).any Flt.truthy then (usOf o).head? else none }
 
 def uncExtra (r : Nat) (q : Path) (o : OldProp) : List (Path × PObj) :=
   if manyOf o then [(extraPath q ".uncertainty", .new (freshProp r "float64" ((usOf o).map .flt)))] else []
@@ -47,31 +47,53 @@ theorem lookup_none_of_not_mem {ps : List (Path × PObj)} {p : Path} (h : p ∉ 
   intro e he hp
   exact h (List.mem_map.mpr ⟨e, he, by simpa using hp⟩)
 
-theorem eraseDups_ne_nil {l : List Rat} (h : l ≠ []) : l.eraseDups ≠ [] := by
+theorem eraseDups_ne_nil {l : List Flt} (h : l ≠ []) : l.eraseDups ≠ [] := by
   cases l with
   | nil => exact absurd rfl h
   | cons a as => rw [List.eraseDups_cons]; simp
 
-/-- at most one distinct value: every element is the head -/
-theorem all_eq_head {l : List Rat} (h : ¬ l.eraseDups.length > 1) : ∀ x ∈ l, l.head? = some x := by
+/-- at most one distinct value (NaNs counted one by one): every element is the head -/
+theorem all_eq_head {l : List Flt} (h : ¬ distinctCount l > 1) : ∀ x ∈ l, l.head? = some x := by
   cases l with
   | nil => intro x hx; cases hx
   | cons a as =>
     intro x hx
-    rw [List.eraseDups_cons] at h
-    simp only [List.length_cons, gt_iff_lt, Nat.lt_add_left_iff_pos, Nat.not_lt, Nat.le_zero_eq,
-      List.length_eq_zero_iff] at h
-    have hf : as.filter (fun b => !b == a) = [] := by
-      apply Classical.byContradiction
-      intro hne
-      exact eraseDups_ne_nil hne h
     simp only [List.mem_cons] at hx
     rcases hx with rfl | hx
     · rfl
-    · have := List.filter_eq_nil_iff.mp hf x hx
-      simp only [beq_eq_false_iff_ne, ne_eq, Bool.not_eq_eq_eq_not, Bool.not_true,
-        Decidable.not_not] at this
-      simp_all
+    · by_cases hxa : x = a
+      · subst hxa; rfl
+      exfalso
+      apply h
+      unfold distinctCount
+      by_cases ha : a = Flt.nan
+      · subst ha
+        have hne : (List.filter (fun y => y != Flt.nan) (Flt.nan :: as)) ≠ [] := by
+          intro hnil
+          have := List.filter_eq_nil_iff.mp hnil x (List.mem_cons_of_mem _ hx)
+          simp [hxa] at this
+        have := List.length_pos_iff.mpr (eraseDups_ne_nil hne)
+        simp only [List.count_cons_self]
+        omega
+      · have hfa : List.filter (fun y => y != Flt.nan) (a :: as) = a :: List.filter (fun y => y != Flt.nan) as := by
+          rw [List.filter_cons]; simp [ha]
+        by_cases hxn : x = Flt.nan
+        · subst hxn
+          have hc : 0 < as.count Flt.nan := List.count_pos_iff.mpr hx
+          have := List.length_pos_iff.mpr (eraseDups_ne_nil (l := List.filter (fun y => y != Flt.nan) (a :: as))
+            (by rw [hfa]; simp))
+          have : List.count Flt.nan (a :: as) = as.count Flt.nan := by
+            rw [List.count_cons]; simp [ha]
+          omega
+        · rw [hfa, List.eraseDups_cons]
+          have hne : (List.filter (fun b => !b == a) (List.filter (fun y => y != Flt.nan) as)) ≠ [] := by
+            intro hnil
+            have hxm : x ∈ List.filter (fun y => y != Flt.nan) as := List.mem_filter.mpr ⟨hx, by simp [hxn]⟩
+            have := List.filter_eq_nil_iff.mp hnil x hxm
+            simp [hxa] at this
+          have := List.length_pos_iff.mpr (eraseDups_ne_nil hne)
+          simp only [List.length_cons]
+          omega
 
 /-- the objects of one conversion are in the file, and nothing else sits at its `<name>.<extra>` paths -/
 structure Done (r : Nat) (ps : List (Path × PObj)) (q : Path) (o : OldProp) : Prop where
@@ -135,12 +157,16 @@ theorem decode_unc (hsuf : extraPath q ".uncertainty" ∈ extras q)
     intro x hx
     have hx' := hall x.uncertainty (List.mem_map.mpr ⟨x, hx, rfl⟩)
     simp only [Function.comp_def]
-    cases hz : (o.rows.map (·.uncertainty)).any (· != 0) with
+    cases hz : (o.rows.map (·.uncertainty)).any Flt.truthy with
     | true => simp [hx']
     | false =>
       have := List.any_eq_false.mp hz x.uncertainty (List.mem_map.mpr ⟨x, hx, rfl⟩)
-      simp only [bne_iff_ne, ne_eq, Decidable.not_not] at this
-      simp [this]
+      have hx0 : x.uncertainty = Flt.fin 0 := by
+        cases hu : x.uncertainty with
+        | fin q => rw [hu] at this; simp only [Flt.truthy, bne_iff_ne, ne_eq, Decidable.not_not] at this; rw [this]
+        | nan => rw [hu] at this; simp [Flt.truthy] at this
+        | inf b => rw [hu] at this; simp [Flt.truthy] at this
+      simp [hx0]
 
 /-- everything of the old property is retrievable from what its conversion created -/
 theorem decode_all (hq : (q :: extras q).Nodup) :
